@@ -21,6 +21,7 @@ const ruleC09 = "model-based state machine (writes incl. deletes of absent ids a
 func c09Profile() *sm.Profile {
 	return &sm.Profile{
 		Name:        "c09",
+		FaultRate:   12,
 		Colls:       []string{"A", "B"},
 		IndexFields: []string{"x", "y", "u", "_id", "n.a"},
 		Doc:         gen.DocCfg{Val: gen.ValCfg{MaxDepth: 1}, PAbsent: 4},
@@ -205,8 +206,14 @@ func TestC09(t *testing.T) {
 		// reads racing with index creation/drop and writes: every FindAll/Count/FindById must
 		// still be the answer of some state between its call and its return
 		col := collector("C09", ruleC09)
-		check(t, "C09", cases(60, 1500), 0, func(rt *rapid.T) {
-			h, verdict := concurrentCase(rt, "C09", []string{"find", "find", "find", "count", "count", "findbyid", "createindex", "dropindex", "dropindex", "insert", "deletebyid"})
+		check(t, "C09", cases(120, 3000), 0, func(rt *rapid.T) {
+			var h *c07History
+			var verdict string
+			if rapid.Bool().Draw(rt, "index-flip") {
+				h, verdict = runConcurrent(rt, "C09", genIndexFlipProgram(rt))
+			} else {
+				h, verdict = concurrentCase(rt, "C09", []string{"find", "find", "find", "count", "count", "findbyid", "createindex", "dropindex", "dropindex", "insert", "deletebyid"})
+			}
 			col.Case(overlapWrite(h), hashOf(h.Setup, len(h.Ops), h.Ops[0].Op), func() interface{} {
 				return map[string]interface{}{"mode": "concurrent", "backend": h.Backend, "operations": len(h.Ops), "verdict": verdict}
 			}, "concurrent", "verdict:"+verdict)
